@@ -32,12 +32,12 @@ Definition sel_txs (a b off : nat) (txs : list bytes) : list bytes :=
 Definition sub_expected (lo hi : nat) (txs : list bytes) : list bytes :=
   sel_txs (coff lo) (Nat.min (coff hi) (length (stream txs))) 0 txs.
 
-Definition tx_ok (tx : bytes) : Prop := 0 < length tx /\ (lenN tx < 2 ^ 64)%N.
+Definition sr_tx_ok (tx : bytes) : Prop := 0 < length tx /\ (lenN tx < 2 ^ 64)%N.
 
-Lemma stream_cons tx tl : stream (tx :: tl) = marshal_delimited tx ++ stream tl.
+Lemma sr_stream_cons tx tl : stream (tx :: tl) = marshal_delimited tx ++ stream tl.
 Proof. reflexivity. Qed.
 
-Lemma stream_app t1 t2 : stream (t1 ++ t2) = stream t1 ++ stream t2.
+Lemma sr_stream_app t1 t2 : stream (t1 ++ t2) = stream t1 ++ stream t2.
 Proof. unfold stream, units. rewrite map_app, concat_app. reflexivity. Qed.
 
 Lemma length_md_pos tx : 1 <= length (marshal_delimited tx).
@@ -143,7 +143,7 @@ Proof.
 Qed.
 
 (* a proper prefix of a delimited non-empty transaction yields nothing *)
-Lemma parse_raw_cut fuel tx k : tx_ok tx -> k < length (marshal_delimited tx) ->
+Lemma parse_raw_cut fuel tx k : sr_tx_ok tx -> k < length (marshal_delimited tx) ->
   parse_raw_data (S fuel) (firstn k (marshal_delimited tx)) = Ok [].
 Proof.
   intros [Hne Hlt] Hk. unfold marshal_delimited in *. rewrite app_length in Hk.
@@ -161,7 +161,7 @@ Proof.
 Qed.
 
 (* one complete unit is consumed *)
-Lemma parse_raw_unit fuel tx rest : tx_ok tx ->
+Lemma parse_raw_unit fuel tx rest : sr_tx_ok tx ->
   parse_raw_data (S fuel) (marshal_delimited tx ++ rest) =
   do r <- parse_raw_data fuel rest; Ok (tx :: r).
 Proof.
@@ -180,7 +180,7 @@ Qed.
    where zero fill only follows the complete stream.  The parser returns exactly
    the units that end at or before [b]. *)
 Theorem parse_raw_sel : forall txs off a b z fuel,
-  Forall tx_ok txs -> a <= off -> (z = 0 \/ off + length (stream txs) <= b) ->
+  Forall sr_tx_ok txs -> a <= off -> (z = 0 \/ off + length (stream txs) <= b) ->
   length (firstn (b - off) (stream txs) ++ zeros z) < fuel ->
   parse_raw_data fuel (firstn (b - off) (stream txs) ++ zeros z) = Ok (sel_txs a b off txs).
 Proof.
@@ -190,7 +190,7 @@ Proof.
     rewrite parse_raw_zeros. reflexivity.
   - inversion Hok as [|? ? Htx Htl]; subst.
     destruct fuel as [|fuel]; [lia|].
-    rewrite stream_cons in *. rewrite sel_cons. rewrite app_length in Hz.
+    rewrite sr_stream_cons in *. rewrite sel_cons. rewrite app_length in Hz.
     set (md := marshal_delimited tx) in *.
     pose proof (length_md_pos tx) as Hp. fold md in Hp.
     destruct (Nat.le_gt_cases (off + length md) b) as [Hle|Hgt].
@@ -214,14 +214,21 @@ Qed.
 (* Part B: the raw data of a sub-range                                         *)
 (* ------------------------------------------------------------------------- *)
 
-Lemma skipn_add {A} : forall a b (l : list A), skipn (a + b) l = skipn b (skipn a l).
+Lemma sr_skipn_add {A} : forall a b (l : list A), skipn (a + b) l = skipn b (skipn a l).
 Proof.
   induction a as [|a IH]; intros b l; [rewrite skipn_O; reflexivity|].
   destruct l as [|x l]; [rewrite !skipn_nil; reflexivity|].
   cbn [Nat.add]. rewrite !skipn_cons. apply IH.
 Qed.
 
-Lemma firstn_add {A} : forall a b (l : list A),
+Lemma skipn_app_l {A} d (l1 l2 : list A) :
+  d <= length l1 -> skipn d l1 ++ l2 = skipn d (l1 ++ l2).
+Proof.
+  intros H. rewrite skipn_app. replace (d - length l1) with 0 by lia.
+  rewrite skipn_O. reflexivity.
+Qed.
+
+Lemma sr_firstn_add {A} : forall a b (l : list A),
   firstn (a + b) l = firstn a l ++ firstn b (skipn a l).
 Proof.
   induction a as [|a IH]; intros b l; [rewrite firstn_O, skipn_O; reflexivity|].
@@ -240,7 +247,7 @@ Proof. unfold padded, pad_to. rewrite firstn_O. reflexivity. Qed.
 
 Lemma padded_split a w1 w2 s : padded a (w1 + w2) s = padded a w1 s ++ padded (a + w1) w2 s.
 Proof.
-  unfold padded, pad_to. rewrite skipn_add, firstn_add.
+  unfold padded, pad_to. rewrite sr_skipn_add, sr_firstn_add.
   set (t := skipn a s).
   destruct (Nat.le_gt_cases w1 (length t)) as [Hle|Hgt].
   - assert (H1 : length (firstn w1 t) = w1) by (rewrite firstn_length; lia).
@@ -271,68 +278,455 @@ Proof.
 Qed.
 
 (* accessors on a compact share of version 0 given by its parts *)
-Section CompactShare.
-  Variables (ns pc : bytes) (total : N) (st : bool) (r : nat).
+Definition cshape (ns : bytes) (total : N) (st : bool) (r : nat) (pc : bytes) : bytes :=
+  ns ++ [info_of 0 st] ++ ((if st then be32 total else []) ++ be32 (N.of_nat r) ++ pc).
+
+Lemma cshape_version ns total (st : bool) r pc : length ns = 29 -> sh_version (cshape ns total st r pc) = 0%N.
+Proof.
+  intros Hns. unfold sh_version, cshape. rewrite hdr_info by exact Hns.
+  apply info_of_version. lia.
+Qed.
+
+Lemma cshape_start ns total (st : bool) r pc : length ns = 29 -> sh_start (cshape ns total st r pc) = st.
+Proof.
+  intros Hns. unfold sh_start, cshape. rewrite hdr_info by exact Hns.
+  apply info_of_start. lia.
+Qed.
+
+Lemma cshape_compact ns total (st : bool) r pc : length ns = 29 -> is_compact_ns ns = true ->
+  sh_is_compact (cshape ns total st r pc) = true.
+Proof.
+  intros Hns Hc. unfold sh_is_compact, cshape. rewrite hdr_ns by exact Hns. exact Hc.
+Qed.
+
+Lemma cshape_length ns total (st : bool) r pc : length ns = 29 ->
+  length pc = (if st then 474 else 478) -> length (cshape ns total st r pc) = 512.
+Proof.
+  intros Hns Hpc. unfold cshape. rewrite hdr_length by exact Hns.
+  destruct st; rewrite !app_length, Hpc, ?length_be32; cbn [length]; lia.
+Qed.
+
+Lemma cshape_raw_data ns total (st : bool) r pc : length ns = 29 -> is_compact_ns ns = true ->
+  sh_raw_data (cshape ns total st r pc) = pc.
+Proof.
+  intros Hns Hc. unfold sh_raw_data, raw_data_start.
+  rewrite cshape_start, cshape_compact, cshape_version by assumption.
+  unfold cshape. destruct st.
+  - change (30 + addif true 4 + addif true 4 + addif (true && (0 =? 1)%N) 20) with 38.
+    rewrite hdr_skip38 by exact Hns. reflexivity.
+  - change (30 + addif false 4 + addif true 4 + addif (false && (0 =? 1)%N) 20) with 34.
+    rewrite hdr_skip34 by exact Hns. reflexivity.
+Qed.
+
+Lemma cshape_raw_reserved ns total (st : bool) r pc : length ns = 29 -> is_compact_ns ns = true ->
+  length pc = (if st then 474 else 478) ->
+  r = 0 \/ ((if st then 38 else 34) <= r < 512) ->
+  sh_raw_data_using_reserved (cshape ns total st r pc) =
+  Ok (if Nat.eqb r 0 then [] else skipn (r - (if st then 38 else 34)) pc).
+Proof.
+  intros Hns Hc Hpc Hr.
+  pose proof (cshape_length ns total st r pc Hns Hpc) as Hlen.
+  unfold sh_raw_data_using_reserved. cbv zeta.
+  rewrite cshape_start, cshape_compact, cshape_version by assumption.
+  assert (Hres : firstn 4 (skipn (30 + addif st 4 + addif (st && (0 =? 1)%N) 20)
+                                 (cshape ns total st r pc))
+                 = be32 (N.of_nat r)).
+  { unfold cshape. destruct st.
+    - change (30 + addif true 4 + addif (true && (0 =? 1)%N) 20) with 34.
+      rewrite hdr_skip34 by exact Hns. reflexivity.
+    - change (30 + addif false 4 + addif (false && (0 =? 1)%N) 20) with 30.
+      rewrite hdr_skip30 by exact Hns. reflexivity. }
+  rewrite Hres. unfold parse_reserved_bytes. rewrite length_be32.
+  change (negb (Nat.eqb 4 4)) with false. cbv iota.
+  assert (Hr512 : r < 512) by (destruct st; lia).
+  rewrite rd32_be32 by lia.
+  replace (512 <=? N.of_nat r)%N with false by lia.
+  cbn [bind].
+  destruct (Nat.eqb r 0) eqn:E0.
+  - replace (N.of_nat r =? 0)%N with true by lia. reflexivity.
+  - replace (N.of_nat r =? 0)%N with false by lia.
+    unfold slice_from, dropN, lenN. rewrite Hlen, Nat2N.id.
+    replace (N.of_nat 512 <? N.of_nat r)%N with false by lia.
+    replace (N.of_nat r <=? N.of_nat 512)%N with true by lia.
+    f_equal. unfold cshape. destruct st.
+    + replace r with (30 + (8 + (r - 38))) at 1 by lia.
+      rewrite hdr_skip by exact Hns. rewrite sr_skipn_add. reflexivity.
+    + replace r with (30 + (4 + (r - 34))) at 1 by lia.
+      rewrite hdr_skip by exact Hns. rewrite sr_skipn_add. reflexivity.
+Qed.
+
+(* the closed-form share j in terms of its parts *)
+Lemma sr_coff_S j : coff (S j) = coff j + ccap j.
+Proof. destruct j; unfold coff, ccap; lia. Qed.
+
+Lemma sr_coff_mono j k : j <= k -> coff j <= coff k.
+Proof. intros H. destruct j, k; unfold coff; lia. Qed.
+
+Lemma sr_length_cchunk j s : length (cchunk j s) = Nat.min (ccap j) (length s - coff j).
+Proof. unfold cchunk. rewrite firstn_length, skipn_length. reflexivity. Qed.
+
+Lemma cshare_cshape ns total j s sts :
+  cshare ns 0 total j s sts =
+  cshape ns total (Nat.eqb j 0) (cres j s sts) (padded (coff j) (ccap j) s).
+Proof. reflexivity. Qed.
+
+Lemma sr_cres_cases j s sts :
+  cres j s sts =
+  match find (fun u => Nat.leb (coff j) u) sts with
+  | Some u => if Nat.ltb u (Nat.min (coff (S j)) (length s)) then chdr j + (u - coff j) else 0
+  | None => 0
+  end.
+Proof.
+  unfold cres. destruct (find _ sts) as [u|] eqn:E; [|reflexivity].
+  apply find_some in E. destruct E as [_ E]. apply Nat.leb_le in E.
+  rewrite sr_length_cchunk, sr_coff_S.
+  destruct (Nat.ltb_spec u (coff j + Nat.min (ccap j) (length s - coff j)));
+    destruct (Nat.ltb_spec u (Nat.min (coff j + ccap j) (length s))); try reflexivity; lia.
+Qed.
+
+Section Range.
+  Variables (ns : namespace) (total : N) (s : bytes) (sts : list nat).
   Hypothesis Hns : length ns = 29.
   Hypothesis Hc : is_compact_ns ns = true.
-  Hypothesis Hpc : length pc = if st then 474 else 478.
-  Hypothesis Hr : r = 0 \/ ((if st then 38 else 34) <= r < 512).
-  Let body := (if st then be32 total else []) ++ be32 (N.of_nat r) ++ pc.
-  Let s := ns ++ [info_of 0 st] ++ body.
+  Hypothesis Hsts : Forall (fun u => u < length s) sts.
 
-  Lemma cs_version : sh_version s = 0%N.
-  Proof. unfold sh_version, s. rewrite hdr_info by exact Hns. apply info_of_version. lia. Qed.
+  Let f := fun j => cshare ns 0 total j s sts.
 
-  Lemma cs_start : sh_start s = st.
-  Proof. unfold sh_start, s. rewrite hdr_info by exact Hns. apply info_of_start. lia. Qed.
+  Lemma sr_cshare_version j : sh_version (f j) = 0%N.
+  Proof. unfold f. rewrite cshare_cshape. apply cshape_version. exact Hns. Qed.
 
-  Lemma cs_compact : sh_is_compact s = true.
-  Proof. unfold sh_is_compact, s. rewrite hdr_ns by exact Hns. exact Hc. Qed.
+  Lemma sr_cshare_raw_data j : sh_raw_data (f j) = padded (coff j) (ccap j) s.
+  Proof. unfold f. rewrite cshare_cshape. apply cshape_raw_data; assumption. Qed.
 
-  Lemma cs_length : length s = 512.
+  Lemma sr_cshare_raw_reserved j :
+    sh_raw_data_using_reserved (f j) =
+    Ok (match find (fun u => Nat.leb (coff j) u) sts with
+        | Some u => if Nat.ltb u (Nat.min (coff (S j)) (length s))
+                    then skipn (u - coff j) (padded (coff j) (ccap j) s) else []
+        | None => []
+        end).
   Proof.
-    unfold s. rewrite hdr_length by exact Hns. unfold body.
-    rewrite !app_length, Hpc, length_be32. destruct st; cbn [length]; lia.
+    unfold f. rewrite cshare_cshape. rewrite cshape_raw_reserved; try assumption.
+    - rewrite sr_cres_cases. destruct (find _ sts) as [u|] eqn:E; [|reflexivity].
+      destruct (Nat.ltb u (Nat.min (coff (S j)) (length s))) eqn:T; [|reflexivity].
+      destruct j as [|j]; cbn [chdr Nat.eqb Nat.add]; do 2 f_equal; lia.
+    - rewrite length_padded. destruct j; reflexivity.
+    - rewrite sr_cres_cases. destruct (find _ sts) as [u|] eqn:E; [|left; reflexivity].
+      destruct (Nat.ltb_spec u (Nat.min (coff (S j)) (length s))) as [T|T]; [|left; reflexivity].
+      right. apply find_some in E. destruct E as [_ E]. apply Nat.leb_le in E.
+      rewrite sr_coff_S in T. destruct j as [|j]; cbn [chdr ccap Nat.eqb] in *; lia.
   Qed.
 
-  Lemma cs_raw_data : sh_raw_data s = pc.
+  (* after a unit start has been found every share contributes its whole payload *)
+  Lemma extract_true : forall m j,
+    extract_raw_data true (map f (seq j m)) = Ok (padded (coff j) (coff (j + m) - coff j) s).
   Proof.
-    unfold sh_raw_data, raw_data_start. rewrite cs_start, cs_compact, cs_version.
-    unfold s, body. destruct st.
-    - change (30 + addif true 4 + addif true 4 + addif (true && (0 =? 1)%N) 20) with 38.
-      rewrite hdr_skip38 by exact Hns. reflexivity.
-    - change (30 + addif false 4 + addif true 4 + addif (false && (0 =? 1)%N) 20) with 34.
-      rewrite hdr_skip34 by exact Hns. reflexivity.
+    induction m as [|m IH]; intros j.
+    - rewrite Nat.add_0_r, Nat.sub_diag, padded_0. reflexivity.
+    - cbn [seq map extract_raw_data]. rewrite IH. cbn [bind]. rewrite sr_cshare_raw_data.
+      f_equal. pose proof (sr_coff_mono (S j) (S j + m) ltac:(lia)) as Hm.
+      replace (j + S m) with (S j + m) by lia.
+      replace (coff (S j + m) - coff j) with (ccap j + (coff (S j + m) - coff (S j)))
+        by (rewrite sr_coff_S in *; lia).
+      rewrite padded_split, <- sr_coff_S. reflexivity.
   Qed.
 
-  Lemma cs_raw_reserved :
-    sh_raw_data_using_reserved s =
-    Ok (if Nat.eqb r 0 then [] else skipn (r - (if st then 38 else 34)) pc).
+  Lemma find_shift : forall (l : list nat) a a' u,
+    find (fun x => Nat.leb a x) l = Some u -> a <= a' <= u ->
+    find (fun x => Nat.leb a' x) l = Some u.
   Proof.
-    pose proof cs_length as Hlen.
-    unfold sh_raw_data_using_reserved. cbv zeta. rewrite cs_start, cs_compact, cs_version.
-    assert (Hres : firstn 4 (skipn (30 + addif st 4 + addif (st && (0 =? 1)%N) 20) s)
-                   = be32 (N.of_nat r)).
-    { unfold s, body. destruct st.
-      - change (30 + addif true 4 + addif (true && (0 =? 1)%N) 20) with 34.
-        rewrite hdr_skip34 by exact Hns. reflexivity.
-      - change (30 + addif false 4 + addif (false && (0 =? 1)%N) 20) with 30.
-        rewrite hdr_skip30 by exact Hns. reflexivity. }
-    rewrite Hres. unfold parse_reserved_bytes. rewrite length_be32.
-    change (negb (Nat.eqb 4 4)) with false. cbv iota.
-    rewrite rd32_be32 by (destruct st; lia).
-    replace (512 <=? N.of_nat r)%N with false by (destruct st; lia).
-    cbn [bind].
-    destruct (Nat.eqb r 0) eqn:E0.
-    - replace (N.of_nat r =? 0)%N with true by lia. reflexivity.
-    - replace (N.of_nat r =? 0)%N with false by lia.
-      unfold slice_from, dropN, lenN. rewrite Hlen, Nat2N.id.
-      replace (512%N <? N.of_nat r)%N with false by (destruct st; lia).
-      replace (N.of_nat r <=? 512%N)%N with true by (destruct st; lia).
-      f_equal. unfold s, body. destruct st.
-      + replace r with (30 + (8 + (r - 38))) at 1 by lia.
-        rewrite hdr_skip by exact Hns. rewrite skipn_add. reflexivity.
-      + replace r with (30 + (4 + (r - 34))) at 1 by lia.
-        rewrite hdr_skip by exact Hns. rewrite skipn_add. reflexivity.
+    induction l as [|x l IH]; intros a a' u H Ha; [discriminate|].
+    cbn [find] in *. destruct (Nat.leb_spec a x) as [Hx|Hx].
+    - inversion H; subst. replace (Nat.leb a' u) with true by lia. reflexivity.
+    - replace (Nat.leb a' x) with false by lia. eapply IH; eassumption.
   Qed.
-End CompactShare.
+
+  Lemma find_shift_none : forall (l : list nat) a a',
+    find (fun x => Nat.leb a x) l = None -> a <= a' ->
+    find (fun x => Nat.leb a' x) l = None.
+  Proof.
+    induction l as [|x l IH]; intros a a' H Ha; [reflexivity|].
+    cbn [find] in *. destruct (Nat.leb_spec a x) as [Hx|Hx]; [discriminate|].
+    replace (Nat.leb a' x) with false by lia. eapply IH; eassumption.
+  Qed.
+
+  (* Step 1: shares without a unit start are skipped; from the first unit start u at or
+     after the first payload byte of share j the raw data is the zero-filled stream up
+     to the end of share j + m - 1 *)
+  Theorem extract_false : forall m j,
+    extract_raw_data false (map f (seq j m)) =
+    Ok (match find (fun u => Nat.leb (coff j) u) sts with
+        | Some u => if Nat.ltb u (Nat.min (coff (j + m)) (length s))
+                    then padded u (coff (j + m) - u) s else []
+        | None => []
+        end).
+  Proof.
+    induction m as [|m IH]; intros j.
+    - cbn [seq map extract_raw_data]. destruct (find _ sts) as [u|] eqn:E; [|reflexivity].
+      apply find_some in E. destruct E as [_ E]. apply Nat.leb_le in E.
+      rewrite Nat.add_0_r. replace (Nat.ltb u (Nat.min (coff j) (length s))) with false by lia.
+      reflexivity.
+    - cbn [seq map extract_raw_data]. rewrite sr_cshare_raw_reserved. cbn [bind].
+      replace (j + S m) with (S j + m) by lia.
+      pose proof (sr_coff_mono (S j) (S j + m) ltac:(lia)) as Hm.
+      pose proof (sr_coff_S j) as HS.
+      destruct (find (fun u => Nat.leb (coff j) u) sts) as [u|] eqn:E.
+      + pose proof (find_some _ _ E) as [Hin Hu]. apply Nat.leb_le in Hu.
+        assert (HuL : u < length s) by (rewrite Forall_forall in Hsts; apply Hsts; exact Hin).
+        destruct (Nat.ltb_spec u (Nat.min (coff (S j)) (length s))) as [T|T].
+        * assert (Hd : u - coff j < ccap j) by (rewrite sr_coff_S in T; lia).
+          replace (Nat.eqb (length (skipn (u - coff j) (padded (coff j) (ccap j) s))) 0)
+            with false by (rewrite skipn_length, length_padded; lia).
+          cbn [negb]. rewrite extract_true. cbn [bind].
+          replace (Nat.ltb u (Nat.min (coff (S j + m)) (length s))) with true by lia.
+          f_equal.
+          rewrite skipn_app_l by (rewrite length_padded; lia).
+          rewrite HS, <- padded_split, skipn_padded by lia.
+          f_equal; lia.
+        * replace (Nat.eqb (@length byte []) 0) with true by reflexivity. cbn [negb app].
+          rewrite IH. rewrite (find_shift _ _ _ _ E) by lia. reflexivity.
+      + replace (Nat.eqb (@length byte []) 0) with true by reflexivity. cbn [negb app].
+        rewrite IH. rewrite (find_shift_none _ _ _ E) by lia. reflexivity.
+  Qed.
+End Range.
+
+(* ------------------------------------------------------------------------- *)
+(* Part C: the first unit start at or after [a] is a unit boundary             *)
+(* ------------------------------------------------------------------------- *)
+
+Lemma ustarts_bound : forall txs off,
+  Forall (fun u => u < off + length (stream txs)) (ustarts off (units txs)).
+Proof.
+  induction txs as [|tx tl IH]; intros off; [constructor|].
+  cbn [units map ustarts]. fold (units tl). rewrite sr_stream_cons, app_length.
+  pose proof (length_md_pos tx) as Hp. constructor; [lia|].
+  eapply Forall_impl; [|apply IH]. cbn beta. intros u Hu. lia.
+Qed.
+
+Lemma sel_empty_range : forall txs a b off, b <= a -> sel_txs a b off txs = [].
+Proof.
+  induction txs as [|tx tl IH]; intros a b off H; [reflexivity|].
+  rewrite sel_cons. pose proof (length_md_pos tx) as Hp.
+  replace (in_range a b (tx, off)) with false
+    by (unfold in_range; cbn [fst snd]; lia).
+  apply IH. exact H.
+Qed.
+
+Lemma find_start_some : forall txs off a u,
+  find (fun x => Nat.leb a x) (ustarts off (units txs)) = Some u ->
+  a <= u /\ exists t1 t2, txs = t1 ++ t2 /\ u = off + length (stream t1) /\
+    forall b, sel_txs a b off txs = sel_txs a b u t2.
+Proof.
+  induction txs as [|tx tl IH]; intros off a u H; [discriminate|].
+  cbn [units map ustarts find] in H. fold (units tl) in H.
+  destruct (Nat.leb_spec a off) as [Hle|Hgt].
+  - inversion H; subst u. split; [exact Hle|].
+    exists [], (tx :: tl). split; [reflexivity|]. split; [cbn [stream units map concat length]; lia|].
+    intros b. reflexivity.
+  - apply IH in H. destruct H as [Hau (t1 & t2 & Htl & Hu & Hsel)].
+    split; [exact Hau|]. exists (tx :: t1), t2. split; [rewrite Htl; reflexivity|].
+    split; [rewrite sr_stream_cons, app_length; lia|].
+    intros b. rewrite sel_cons.
+    replace (in_range a b (tx, off)) with false by (unfold in_range; cbn [fst snd]; lia).
+    apply Hsel.
+Qed.
+
+Lemma find_start_none : forall txs off a b,
+  find (fun x => Nat.leb a x) (ustarts off (units txs)) = None -> sel_txs a b off txs = [].
+Proof.
+  induction txs as [|tx tl IH]; intros off a b H; [reflexivity|].
+  cbn [units map ustarts find] in H. fold (units tl) in H.
+  destruct (Nat.leb_spec a off) as [Hle|Hgt]; [discriminate|].
+  rewrite sel_cons.
+  replace (in_range a b (tx, off)) with false by (unfold in_range; cbn [fst snd]; lia).
+  apply IH. exact H.
+Qed.
+
+(* ------------------------------------------------------------------------- *)
+(* The main theorem                                                            *)
+(* ------------------------------------------------------------------------- *)
+
+Lemma sub_seq n lo hi : lo <= hi <= n ->
+  firstn (hi - lo) (skipn lo (seq 0 n)) = seq lo (hi - lo).
+Proof.
+  intros H. replace n with (lo + ((hi - lo) + (n - hi))) by lia.
+  rewrite !seq_app. cbn [Nat.add].
+  rewrite skipn_app, seq_length, Nat.sub_diag, skipn_O.
+  rewrite skipn_all2 by (rewrite seq_length; lia). cbn [app].
+  rewrite firstn_app, seq_length, Nat.sub_diag, firstn_O, app_nil_r.
+  apply firstn_all2. rewrite seq_length. lia.
+Qed.
+
+Lemma parse_txs_cons sh shs :
+  parse_txs (sh :: shs) =
+  if negb (forallb (fun s => (sh_version s =? 0)%N) (sh :: shs)) then Err else
+  do raw <- extract_raw_data false (sh :: shs);
+  parse_raw_data (S (length raw)) raw.
+Proof. reflexivity. Qed.
+
+(* any [n] shares of the closed form, any sequence-length field *)
+Theorem parse_subrange_gen ns total txs n lo hi :
+  length ns = 29 -> is_compact_ns ns = true -> Forall sr_tx_ok txs ->
+  lo <= hi <= n ->
+  parse_txs (firstn (hi - lo) (skipn lo
+     (map (fun j => cshare ns 0 total j (stream txs) (ustarts 0 (units txs))) (seq 0 n))))
+  = Ok (sub_expected lo hi txs).
+Proof.
+  intros Hns Hc Hok Hr. rewrite skipn_map, firstn_map, sub_seq by exact Hr.
+  unfold sub_expected.
+  set (f := fun j => cshare ns 0 total j (stream txs) (ustarts 0 (units txs))).
+  destruct (hi - lo) as [|m] eqn:Em.
+  { cbn [seq map parse_txs]. rewrite sel_empty_range; [reflexivity|].
+    replace hi with lo by lia. lia. }
+  pose proof (ustarts_bound txs 0) as Hb. cbn [Nat.add] in Hb.
+  assert (Hver : forallb (fun sh => (sh_version sh =? 0)%N) (map f (seq lo (S m))) = true).
+  { apply forallb_forall. intros sh Hin. apply in_map_iff in Hin.
+    destruct Hin as (j & <- & _). unfold f. rewrite sr_cshare_version by assumption. reflexivity. }
+  pose proof (extract_false ns total (stream txs) (ustarts 0 (units txs)) Hns Hc Hb (S m) lo) as Hex.
+  fold f in Hex. replace (lo + S m) with hi in Hex by lia.
+  cbn [seq map] in Hver, Hex |- *. rewrite parse_txs_cons, Hver, Hex. cbn [negb bind].
+  destruct (find (fun u => Nat.leb (coff lo) u) (ustarts 0 (units txs))) as [u|] eqn:E.
+  - apply find_start_some in E. destruct E as [Hau (t1 & t2 & Htxs & Hu & Hsel)].
+    cbn [Nat.add] in Hu. rewrite Hsel.
+    destruct (Nat.ltb_spec u (Nat.min (coff hi) (length (stream txs)))) as [T|T].
+    + rewrite padded_cut by lia.
+      assert (Hskip : skipn u (stream txs) = stream t2).
+      { rewrite Htxs, sr_stream_app, Hu, skipn_app, Nat.sub_diag, skipn_O.
+        rewrite skipn_all2 by lia. reflexivity. }
+      assert (HL : length (stream txs) = u + length (stream t2)).
+      { rewrite Htxs, sr_stream_app, app_length. lia. }
+      rewrite Hskip. apply parse_raw_sel.
+      * rewrite Htxs in Hok. apply Forall_app in Hok. apply Hok.
+      * exact Hau.
+      * lia.
+      * lia.
+    + rewrite sel_nil by lia. reflexivity.
+  - rewrite (find_start_none _ _ _ _ E). reflexivity.
+Qed.
+
+Lemma tx_ok_of_bound txs : Forall (fun t => t <> []) txs ->
+  (lenN (stream txs) < 4294967296)%N -> Forall sr_tx_ok txs.
+Proof.
+  induction 1 as [|t txs Ht _ IH]; intros Hb; [constructor|].
+  rewrite sr_stream_cons in Hb. unfold marshal_delimited, lenN in Hb. rewrite !app_length in Hb.
+  constructor.
+  - split; [destruct t; [congruence|cbn [length]; lia]|].
+    unfold lenN. change (2 ^ 64)%N with 18446744073709551616%N. lia.
+  - apply IH. unfold lenN. lia.
+Qed.
+
+(* C11, on the closed form of an exported sequence *)
+Theorem parse_subrange_unbounded ns txs lo hi :
+  length ns = 29 -> is_compact_ns ns = true -> Forall sr_tx_ok txs ->
+  lo <= hi <= length (compact_spec_ix ns 0 txs) ->
+  parse_txs (firstn (hi - lo) (skipn lo (compact_spec_ix ns 0 txs))) = Ok (sub_expected lo hi txs).
+Proof.
+  intros Hns Hc Hok Hr. unfold compact_spec_ix in *. cbv zeta in *.
+  rewrite map_length, seq_length in Hr.
+  apply parse_subrange_gen; assumption.
+Qed.
+
+Theorem parse_subrange ns txs lo hi :
+  length ns = 29 -> is_compact_ns ns = true -> Forall (fun t => t <> []) txs ->
+  (lenN (stream txs) < 4294967296)%N ->
+  lo <= hi <= length (compact_spec_ix ns 0 txs) ->
+  parse_txs (firstn (hi - lo) (skipn lo (compact_spec_ix ns 0 txs))) = Ok (sub_expected lo hi txs).
+Proof.
+  intros Hns Hc Hne Hb Hr. apply parse_subrange_unbounded; try assumption.
+  apply tx_ok_of_bound; assumption.
+Qed.
+
+(* ------------------------------------------------------------------------- *)
+(* Consequences of the characterisation                                        *)
+(* ------------------------------------------------------------------------- *)
+
+(* past the lower bound the selection is a prefix *)
+Lemma sel_prefix : forall txs a b off, a <= off ->
+  exists post, txs = sel_txs a b off txs ++ post.
+Proof.
+  induction txs as [|tx tl IH]; intros a b off Ha; [exists []; reflexivity|].
+  rewrite sel_cons. destruct (in_range a b (tx, off)) eqn:E.
+  - destruct (IH a b (off + length (marshal_delimited tx)) ltac:(lia)) as (post & Hp).
+    exists post. cbn [app]. rewrite <- Hp. reflexivity.
+  - rewrite sel_nil; [exists (tx :: tl); reflexivity|].
+    unfold in_range in E. cbn [fst snd] in E. lia.
+Qed.
+
+(* the selected transactions are a contiguous run of the written ones, in order *)
+Theorem sel_contiguous : forall txs a b off,
+  exists pre post, txs = pre ++ sel_txs a b off txs ++ post.
+Proof.
+  induction txs as [|tx tl IH]; intros a b off; [exists [], []; reflexivity|].
+  destruct (Nat.le_gt_cases a off) as [Hle|Hgt].
+  - destruct (sel_prefix (tx :: tl) a b off Hle) as (post & Hp). exists [], post. exact Hp.
+  - rewrite sel_cons.
+    replace (in_range a b (tx, off)) with false by (unfold in_range; cbn [fst snd]; lia).
+    destruct (IH a b (off + length (marshal_delimited tx))) as (pre & post & Hp).
+    exists (tx :: pre), post. cbn [app]. rewrite <- Hp. reflexivity.
+Qed.
+
+Theorem sub_expected_contiguous lo hi txs :
+  exists pre post, txs = pre ++ sub_expected lo hi txs ++ post.
+Proof. apply sel_contiguous. Qed.
+
+(* "never returns a transaction that was not written" *)
+Theorem parse_subrange_sublist ns txs lo hi res :
+  length ns = 29 -> is_compact_ns ns = true -> Forall (fun t => t <> []) txs ->
+  (lenN (stream txs) < 4294967296)%N ->
+  lo <= hi <= length (compact_spec_ix ns 0 txs) ->
+  parse_txs (firstn (hi - lo) (skipn lo (compact_spec_ix ns 0 txs))) = Ok res ->
+  exists pre post, txs = pre ++ res ++ post.
+Proof.
+  intros Hns Hc Hne Hb Hr H. rewrite parse_subrange in H by assumption.
+  injection H as <-. apply sub_expected_contiguous.
+Qed.
+
+(* the whole sequence is the sub-range that selects everything (C09 as a special case) *)
+Lemma sel_all : forall txs off b, off + length (stream txs) <= b -> sel_txs 0 b off txs = txs.
+Proof.
+  induction txs as [|tx tl IH]; intros off b H; [reflexivity|].
+  rewrite sr_stream_cons, app_length in H. rewrite sel_cons.
+  replace (in_range 0 b (tx, off)) with true by (unfold in_range; cbn [fst snd]; lia).
+  f_equal. apply IH. lia.
+Qed.
+
+Lemma coff_cneeded len : len <= coff (cneeded len).
+Proof.
+  unfold cneeded. destruct (Nat.eqb_spec len 0) as [->|H0]; [cbn [coff]; lia|].
+  destruct (Nat.leb_spec len 474) as [H1|H1]; [cbn [coff]; lia|].
+  cbn [Nat.add coff]. lia.
+Qed.
+
+Theorem sub_expected_full txs :
+  sub_expected 0 (cneeded (length (stream txs))) txs = txs.
+Proof.
+  unfold sub_expected. cbn [coff]. apply sel_all.
+  pose proof (coff_cneeded (length (stream txs))). lia.
+Qed.
+
+(* a range that lies wholly inside one transaction yields nothing: no unit starts at or
+   after coff lo and ends by coff hi *)
+Theorem sub_expected_inside lo hi t1 tx t2 :
+  length (stream t1) < coff lo ->
+  coff hi < length (stream t1) + length (marshal_delimited tx) ->
+  sub_expected lo hi (t1 ++ tx :: t2) = [].
+Proof.
+  intros H1 H2. unfold sub_expected.
+  set (b := Nat.min (coff hi) (length (stream (t1 ++ tx :: t2)))).
+  assert (Hb : b <= coff hi) by (unfold b; lia). clearbody b.
+  assert (G : forall l off, off + length (stream l) < coff lo ->
+     sel_txs (coff lo) b off (l ++ tx :: t2) =
+     sel_txs (coff lo) b (off + length (stream l)) (tx :: t2)).
+  { induction l as [|x l IH]; intros off Hl.
+    - cbn [app stream units map concat length]. rewrite Nat.add_0_r. reflexivity.
+    - rewrite sr_stream_cons, app_length in Hl. cbn [app]. rewrite sel_cons.
+      pose proof (length_md_pos x) as Hp.
+      replace (in_range (coff lo) b (x, off)) with false
+        by (unfold in_range; cbn [fst snd]; lia).
+      rewrite IH by lia. rewrite sr_stream_cons, app_length. f_equal. lia. }
+  rewrite G by (cbn [Nat.add]; exact H1). cbn [Nat.add].
+  rewrite sel_cons.
+  replace (in_range (coff lo) b (tx, length (stream t1))) with false
+    by (unfold in_range; cbn [fst snd]; lia).
+  apply sel_nil. lia.
+Qed.
